@@ -264,10 +264,10 @@ def check_history(impl, spec, h, report, count=lambda k: None):
         out = impl.call(h.raising, lambda: setattr(ml, 'mediaText', h.start))
         check_parse(impl, spec, h, 0, ml, [], False, start_toks, out, report, count, from_text=True)
     else:
-        css = ('@media %s {a{b:c}}' if h.context == 'media' else '@import "x" %s;') % h.start
+        css = ('@media %s {a{b:c}}' if h.context.startswith('media') else '@import "x" %s;') % h.start
         impl.captured = []
         try:
-            impl.parser.parseString(css)
+            (impl.parser_nc if h.context.endswith('-nc') else impl.parser).parseString(css)
             cap = impl.captured
         finally:
             impl.captured = None
